@@ -37,6 +37,7 @@ THEOREMS = [
     "OQuPyVerif.Props.C17.flag_cleared_only_by_close",
     "OQuPyVerif.Props.C17.compute_caps_keeps_flag",
     "OQuPyVerif.Props.C17.entry_points_no_clobber",
+    "OQuPyVerif.Props.C17.flag_tests_unconditional",
 ]
 
 VLEN = ["initial_tensor_data", "initial_tensor_shape", "mpo_tensors_data", "mpo_tensors_shape",
@@ -463,10 +464,53 @@ def judge_entry(entry, ovw, prior, raised, changed):
     return []
 
 
+OTHER_VERSION = "0.0.1.other"
+
+
+class writer_version:
+    """while active, the writer stamps its file with another oqupy version ('other') or with
+    none at all ('absent'); the reader afterwards runs with the installed version"""
+
+    def __init__(self, sc):
+        self.how = sc.get("version")
+
+    def __enter__(self):
+        import oqupy.process_tensor as P
+        self.P = P
+        self.saved_version = P.__version__
+        self.saved_create = P.FileProcessTensor._create_file
+        if self.how == "other":
+            P.__version__ = OTHER_VERSION
+        elif self.how == "absent":
+            orig = self.saved_create
+
+            def create(obj, filename):
+                r = orig(obj, filename)
+                del obj._f.attrs["oqupy_version"]
+                return r
+            P.FileProcessTensor._create_file = create
+        return self
+
+    def __exit__(self, *a):
+        self.P.__version__ = self.saved_version
+        self.P.FileProcessTensor._create_file = self.saved_create
+
+
 def run_scenario(sc, path):
     """the writer of scenario `sc` on the real code, to completion (including close())"""
     import oqupy
     kind = sc["kind"]
+    if kind == "filept-nocaps":
+        # a file-backed process tensor filled by hand with MPO tensors only, then closed
+        spec = sc["pt"]
+        fpt = oqupy.FileProcessTensor(
+            mode="overwrite" if sc["ovw"] else "write", filename=path,
+            hilbert_space_dimension=spec["hs"], dt=spec["dt"], name=spec["name"],
+            description=spec["descr"])
+        for k in range(len(spec["mpos"])):
+            fpt.set_mpo_tensor(k, tensor_of(spec["mpos"][k]))
+        fpt.close()
+        return
     if kind == "export":
         build_simple(sc["pt"]).export(path, overwrite=sc["ovw"])
     elif kind == "filept":
@@ -576,8 +620,13 @@ def complete_content(sc, path):
             return "MPO tensor %d unreadable (%s)" % (k, t)
         if want is not None and (t.shape != want[k].shape or not np.array_equal(t, want[k])):
             return "MPO tensor %d differs" % k
-    if len(got["caps"]) != want_n + 1 or any(isinstance(c, str) for c in got["caps"]):
-        return "%d cap tensors, expected %d" % (len(got["caps"]), want_n + 1)
+    want_caps = want_n + 1
+    if sc["kind"] == "filept-nocaps":
+        want_caps = 0
+    elif sc["kind"] == "export" and sc["pt"].get("caps") is not None:
+        want_caps = len(sc["pt"]["caps"])
+    if len(got["caps"]) != want_caps or any(isinstance(c, str) for c in got["caps"]):
+        return "%d cap tensors, expected %d" % (len(got["caps"]), want_caps)
     return None
 
 
@@ -624,7 +673,8 @@ def _child(sc, path, k_kill, variant, logfd):
             with warnings.catch_warnings():
                 warnings.simplefilter("ignore")
                 try:
-                    run_scenario(sc, path)
+                    with writer_version(sc):
+                        run_scenario(sc, path)
                 except (InjectedFault, KeyboardInterrupt) as e:
                     propagated = type(e).__name__
         if variant in ("raise", "interrupt"):
@@ -674,7 +724,8 @@ def runner_main(spec_path, out_path):
             with warnings.catch_warnings():
                 warnings.simplefilter("ignore")
                 try:
-                    run_scenario(sc, path)
+                    with writer_version(sc):
+                        run_scenario(sc, path)
                     out["full_error"] = None
                 except Exception as e:
                     out["full_error"] = type(e).__name__
@@ -694,6 +745,8 @@ def runner_main(spec_path, out_path):
         out["full_dump_forked"] = dump_file(path)
         nops = len([l for l in log if not l.startswith(("EXC:", "END:"))])
         ks = sc.get("ks") or list(range(1, nops + 1))
+        if sc.get("complete_only"):
+            ks = []
         for k in ks:
             for variant in sc.get("variants", ["exit", "flush"]):
                 make_prior(sc["prior"], path)
@@ -752,12 +805,16 @@ PYVALS = [("True", True), ("False", False), ("np.True_", np.True_), ("np.False_"
 
 def eval_flag(expr, value, write):
     class A:
-        pass
+        def __getattr__(self, name):        # helpers the test may call: taken as True
+            return lambda *a, **k: True
     s = A()
     s._f = A()
     s._f.attrs = {"writing": value}
     s._write = write
-    return bool(eval(expr, {"np": np}, {"self": s}))
+    try:
+        return bool(eval(expr, {"np": np}, {"self": s, "attrs": s._f.attrs}))
+    except Exception:
+        return None
 
 
 # ---------------------------------------------------------------------------
@@ -796,6 +853,23 @@ def scenarios(tier, rng):
     # a named file that must not be overwritten: the object is not entitled to remove it
     gen.append({"kind": "pttempo", "coupling": "z", "steps": 2, "ovw": False, "prior": "missing",
                 "variants": ["flush", "interrupt"]})
+    # files written by another / an unversioned oqupy: the reader's version warning must not
+    # replace the corruption warning
+    gen.append({"kind": "export", "pt": gen_pt_spec(rng, length=1, rank=3, max_bond=2, with_tr=False),
+                "ovw": False, "prior": "missing", "version": "other", "variants": ["flush"]})
+    gen.append({"kind": "filept", "pt": gen_pt_spec(rng, length=1, rank=3, max_bond=2, with_tr=False),
+                "ovw": True, "prior": "missing", "version": "absent", "variants": ["flush"]})
+    # closed normally although there is no (complete) set of caps: complete run only
+    gen.append({"kind": "export", "pt": gen_pt_spec(rng, length=2, rank=3, max_bond=2, with_tr=False,
+                                                    caps="none"),
+                "ovw": False, "prior": "missing", "complete_only": True})
+    partial = gen_pt_spec(rng, length=3, rank=3, max_bond=2, with_tr=False, caps="custom")
+    partial["caps"] = partial["caps"][:2]
+    gen.append({"kind": "export", "pt": partial, "ovw": True, "prior": "missing",
+                "complete_only": True})
+    gen.append({"kind": "filept-nocaps", "pt": gen_pt_spec(rng, length=2, rank=4, max_bond=2,
+                                                           with_tr=False),
+                "ovw": False, "prior": "missing", "complete_only": True})
     if tier == "thorough":
         for i in range(6):
             gen.append({"kind": rng.choice(["export", "filept"]),
@@ -820,6 +894,12 @@ def scenarios(tier, rng):
     return scs + gen
 
 
+def version_token_for(sc):
+    if sc.get("version") == "other":
+        return "version=" + hexs(OTHER_VERSION)
+    return version_token()
+
+
 def model_line_for(sc, result, crash):
     """protocol line asking the model for the same scenario.  An older complete file at the
     path (prior 'pt') is given to the model as `empty` (some readable file): writers that
@@ -829,9 +909,9 @@ def model_line_for(sc, result, crash):
     if sc["kind"] == "export":
         pt = build_simple(sc["pt"])
         return "%s ovw=%d disk=%s %s %s" % ("crash-export" if crash else "export", int(sc["ovw"]),
-                                            disk, version_token(), enc_simple(pt))
+                                            disk, version_token_for(sc), enc_simple(pt))
     return "%s mode=%s disk=%s %s close=1 unwind=%s %s cmds=%s" % (
-        "crash-writer" if crash else "writer", result["mode"], disk, version_token(),
+        "crash-writer" if crash else "writer", result["mode"], disk, version_token_for(sc),
         "pttempo" if sc["kind"] == "pttempo" else "none", result["meta"], result["cmds"])
 
 
@@ -862,6 +942,8 @@ def judge_points(sc, result):
             exc = p["variant"] in ("raise", "interrupt")
             key = ("interrupted-by-exception:file-opens-without-warning:" + sc["kind"]) if exc \
                 else "writing-flag:interrupted-file-opens-without-warning"
+            if sc.get("version"):
+                key += ":file-version-" + sc["version"]
             if key in seen:
                 continue
             seen.add(key)
@@ -909,10 +991,19 @@ def correspondence(res, tier, rng):
         res.disagree("flag tests not found in the source", {})
     else:
         for name, val in PYVALS:
-            exp = "1" if eval_flag(read_src, val, False) else "0"
+            ev = eval_flag(read_src, val, False)
+            if ev is None:
+                res.disagree("the reader's flag test cannot be evaluated on its own", {"test": read_src})
+                continue
+            exp = "1" if ev else "0"
             add("flag read %s" % name, (lambda got, exp=exp: got == exp, exp), "flag-read-" + name)
             for wr in (False, True):
-                exp = "1" if eval_flag(close_src, val, wr) else "0"
+                ev = eval_flag(close_src, val, wr)
+                if ev is None:
+                    res.disagree("the flag test of close() cannot be evaluated on its own",
+                                 {"test": close_src})
+                    continue
+                exp = "1" if ev else "0"
                 add("flag close %d %s" % (int(wr), name), (lambda got, exp=exp: got == exp, exp),
                     "flag-close-%s-%s" % (wr, name))
             res.count("flag-values")
@@ -1030,7 +1121,13 @@ def compare_crash(res, line, got, sc, r, key):
         return
     # complete run: exact equality of content and reader outcome
     res.case(key + ":complete", True, {"op": line[:100], "impl": r["full_outcome"], "model": outcomes[L]})
-    norm = mask_data if sc["kind"] == "pttempo" else (lambda x: x)
+    norm0 = mask_data if sc["kind"] == "pttempo" else (lambda x: x)
+    if sc.get("version") == "absent":
+        # the writer removed the version attribute right after creation; the model keeps it
+        def norm(x):
+            return " ".join(t for t in norm0(x).split(" ") if not t.startswith("version="))
+    else:
+        norm = norm0
     if norm(dumps[L]) != norm(r["full_dump"]):
         res.disagree("content of the completed file differs", {
             "scenario": sc, "impl": r["full_dump"][:600], "model": dumps[L][:600]})
